@@ -294,6 +294,31 @@ def gen_dataset(rng, nmax=7, mmax=5, family=None, kind=None, allow_empty=True, n
                 sub = [e for e in blk if rng.random() < 0.85] or [rng.choice(blk)]
                 r.extend(gen_ranking(rng, sub, td, "complete"))
             raw.append(r)
+    elif family == "cyclic":
+        # blocks consistently ordered; inside a block the rankings are rotations of one another (Condorcet cycles):
+        # multi-component graphs whose components are not trivially tiable
+        k = rng.randint(1, max(1, min(3, n // 2)))
+        pool = list(elems)
+        rng.shuffle(pool)
+        blocks = [pool[i::k] for i in range(k)]
+        m = max(m, 3)
+        for _ in range(m):
+            r = []
+            for blk in blocks:
+                if rng.random() < 0.2:
+                    continue
+                rot = rng.randrange(len(blk))
+                seq = blk[rot:] + blk[:rot]
+                if rng.random() < 0.3 and len(seq) > 1:
+                    seq = seq[:-1]
+                bs = []
+                for e in seq:
+                    if bs and rng.random() < 0.15:
+                        bs[-1].append(e)
+                    else:
+                        bs.append([e])
+                r.extend(bs)
+            raw.append(r)
     elif family == "dup":
         base = [gen_ranking(rng, elems, td, rng.choice(["complete", "incomplete"])) for _ in range(max(1, m // 2))]
         raw = [[list(b) for b in rng.choice(base)] for _ in range(m)]
